@@ -224,20 +224,28 @@ def listBar (po : POps) (st : ListSt) : Res ListSt :=
     else (makeLogicVar po t2).bind fun v =>
       (linkFront v true st.list).bind fun l => .ok { st with list := l, vbar := true, seg := [] }
 
+/-- the branch taken outside quotes, parentheses and brackets of the elements -/
+def listStepTop (po : POps) (pt : Text → Res Term) (c : Char) (esc : Bool) (st : ListSt) : Res ListSt :=
+  let eq (ch : Char) : Bool := c == ch && !esc
+  if eq '"' then .ok { st.push c with openQuote := true, numQuotes := st.numQuotes + 1 }
+  else if eq ',' then listComma pt st
+  else if eq '|' then listBar po st
+  else .ok (st.push c)
+
 /-- the body of the loop for the character `c`; `esc` = the character before it is a backslash -/
 def listStep (po : POps) (pt : Text → Res Term) (c : Char) (esc : Bool) (st : ListSt) : Res ListSt :=
   let eq (ch : Char) : Bool := c == ch && !esc
   if st.openQuote then
-    (if eq '"' then .ok { st.push c with openQuote := false, numQuotes := st.numQuotes + 1 } else .ok (st.push c))
+    (if eq '"' then
+       .ok { st.push c with openQuote := false, numQuotes := (if st.round == 0 && st.square == 0 then st.numQuotes + 1 else st.numQuotes) }
+     else .ok (st.push c))
+  -- (after repair D23: quotes inside an element protect its brackets and parentheses)
+  else if !(st.round == 0 && st.square == 0) && eq '"' then .ok { st.push c with openQuote := true }
   else if eq ']' then .ok { st.push c with square := st.square + 1 }
   else if eq '[' then .ok { st.push c with square := st.square - 1 }
   else if eq ')' then .ok { st.push c with round := st.round + 1 }
   else if eq '(' then .ok { st.push c with round := st.round - 1 }
-  else if st.round == 0 && st.square == 0 then
-    if eq '"' then .ok { st.push c with openQuote := true, numQuotes := st.numQuotes + 1 }
-    else if eq ',' then listComma pt st
-    else if eq '|' then listBar po st
-    else .ok (st.push c)
+  else if st.round == 0 && st.square == 0 then listStepTop po pt c esc st
   else .ok (st.push c)
 
 /-- `if ind == 0`: the first element -/
@@ -319,7 +327,9 @@ def argStep (mk : Text → Bool → Bool → Bool → Res Term) (ch : Char) (res
   if st.esc then .ok { st.push ch with esc := false }
   else if st.openQuote then
     .ok { st.push ch with openQuote := !(ch == '"'),
-                          numQuotes := if ch == '"' then st.numQuotes + 1 else st.numQuotes }
+                          numQuotes := if ch == '"' && st.round == 0 && st.square == 0 then st.numQuotes + 1 else st.numQuotes }
+  -- (after repair D23: between double quotes, brackets and parentheses are ordinary characters at every depth)
+  else if ch == '"' && !(st.round == 0 && st.square == 0) then .ok { st.push ch with openQuote := true, hasNonDigit := true }
   -- (after repair D20: brackets, parentheses and what they hold are not digits)
   else if ch == '[' then .ok { st.push ch with square := st.square + 1, hasNonDigit := true }
   else if ch == ']' then .ok { st.push ch with square := st.square - 1, hasNonDigit := true }
@@ -418,7 +428,8 @@ def unescLoop : Text → Int → Int → Bool → Text × Nat
   | [], _, _, _ => ([], 0)
   | ch :: rest, round, square, oq =>
     let keep (r : Text × Nat) (q : Nat) : Text × Nat := (ch :: r.1, r.2 + q)
-    if oq then keep (unescLoop rest round square (!(ch == '"'))) (if ch == '"' then 1 else 0)
+    if oq then keep (unescLoop rest round square (!(ch == '"'))) (if ch == '"' && round == 0 && square == 0 then 1 else 0)
+    else if ch == '"' && !(round == 0 && square == 0) then keep (unescLoop rest round square true) 0
     else if ch == '[' then keep (unescLoop rest round (square + 1) false) 0
     else if ch == ']' then keep (unescLoop rest round (square - 1) false) 0
     else if ch == '(' then keep (unescLoop rest (round + 1) square false) 0
